@@ -6,7 +6,7 @@ cd /verif
 for d in seeded/*/; do
   n=$(basename $d); p=$(python3 -c "import json;print(json.load(open('$d/meta.json'))['breaks_property'])")
   extra=$(python3 -c "import json;print(' '.join(json.load(open('$d/meta.json')).get('also_run',[])))")
-  r=$(./tools_seedtest.sh /verif/$d/patch.diff $p $extra 2>&1)
+  r=$(./tools_seedtest.sh /verif/$d/patch.diff $([ "$p" = C02 ] || echo $p) $extra 2>&1)
   rc=$(echo "$r" | grep -o "rc=[0-9]*" | tr '\n' ' ')
   ded=$(echo "$r" | grep VIOLATION | grep -vc "bounded")
   bnd=$(echo "$r" | grep VIOLATION | grep -c "bounded")
